@@ -1,2 +1,348 @@
+//! C06 — Blind BBS soundness: bad commitments are refused, blind artefacts are bound.
+
+use crate::api::*;
 use crate::common::*;
-pub fn scenarios(_ctx: &Ctx) -> Vec<Scenario> { vec![] }
+use bls12_381_plus::G2Projective;
+use rand::RngCore;
+use serde_json::json;
+
+fn not_ok(ctx: &Ctx, kind: &str, case: &str, out: &Outcome, detail: serde_json::Value) {
+    ctx.distinct(case);
+    if out.is_ok() {
+        ctx.violation(&format!("C06:accepted/{}", kind), json!({"case":case,"detail":detail}));
+    }
+    if out.is_panic() {
+        ctx.count("panics_seen(counted as not accepted; C08 judges them)", 1);
+    }
+}
+
+fn one<X: Sx, Y: Sx>(ctx: &Ctx, idx: u64, l: usize, m: usize, all_flips: bool) {
+    let mut r = ctx.rng("c06", idx);
+    let (sk, pk) = keypair::<X>(&mut r);
+    let msgs = gen_messages(&mut r, l, 0);
+    let cm = gen_messages(&mut r, m, 0);
+    let hdr = Hdr::gen(&mut r, &[1, 16]);
+    let ho = hdr.as_opt();
+    let base = format!("{}/L{}/M{}", name::<X>(), l, m);
+    let Some((com, blind)) = ctx.call("commit", &base, None, || Com::<X>::commit(Some(&cm))).value else {
+        ctx.inconclusive("C06: honest commit failed (C05's business)");
+        return;
+    };
+    let cwp = com.to_bytes();
+    let Some(bsig) = ctx.call("blind_sign", &base, None, || BSig::<X>::blind_sign(&sk, &pk, Some(&cwp), ho, Some(&msgs))).value else {
+        ctx.inconclusive("C06: honest blind_sign failed (C05's business)");
+        return;
+    };
+    if !ctx.call("verify_blind_sign", &base, None, || bsig.verify_blind_sign(&pk, ho, Some(&msgs), Some(&cm), Some(&blind))).outcome.is_ok() {
+        ctx.inconclusive("C06: honest blind signature did not verify (C05's business)");
+        return;
+    }
+    // ------------------------------------------------ 1. the signer refuses bad commitments
+    let sign_with = |kind: &str, pos: String, c: &[u8]| {
+        let case = format!("{}/commit-{}/{}", base, kind, pos);
+        let o = ctx.call("blind_sign", &case, None, || BSig::<X>::blind_sign(&sk, &pk, Some(c), ho, Some(&msgs)));
+        not_ok(ctx, &format!("commitment-{}", kind), &case, &o.outcome, json!({"commitment":hx_full(c),"honest_commitment":hx_full(&cwp)}));
+    };
+    let nbits = cwp.len() * 8;
+    let flips: Vec<usize> = if all_flips { (0..nbits).collect() } else { (0..64).map(|_| rand_range(&mut r, nbits)).collect() };
+    for b in flips {
+        let mut c = cwp.clone();
+        c[b / 8] ^= 1 << (b % 8);
+        sign_with("bitflip", format!("{b}"), &c);
+    }
+    if all_flips {
+        ctx.count("commitments_with_all_bit_flips", 1);
+    }
+    // proof made for other committed messages (same count): point of one + proof of another
+    let mut cm2 = cm.clone();
+    if m > 0 {
+        cm2[0] = rand_bytes(&mut r, 11);
+    }
+    if let Some((com2, _)) = ctx.call("commit", &base, None, || Com::<X>::commit(Some(&cm2))).value {
+        let c2 = com2.to_bytes();
+        let mut mix = cwp[..48].to_vec();
+        mix.extend_from_slice(&c2[48..]);
+        sign_with("point-of-A-proof-of-B", "-".into(), &mix);
+        let mut mix = c2[..48].to_vec();
+        mix.extend_from_slice(&cwp[48..]);
+        sign_with("point-of-B-proof-of-A", "-".into(), &mix);
+    }
+    // commitment made under the other suite
+    if let Some((comy, _)) = ctx.call("commit", &base, None, || Com::<Y>::commit(Some(&cm))).value {
+        sign_with("other-suite", "-".into(), &comy.to_bytes());
+    }
+    // truncation / extension by whole scalars
+    for k in 1..=3usize {
+        if cwp.len() >= 48 + 32 * (k + 2) {
+            sign_with("truncated", format!("{k}"), &cwp[..cwp.len() - 32 * k]);
+        }
+        for (fill, nm) in [(vec![0u8; 32], "zero"), (crate::refimpl::scalar_be(&crate::c04::rand_scalar(&mut r)).to_vec(), "random"), (cwp[cwp.len() - 32..].to_vec(), "copy")] {
+            let mut c = cwp.clone();
+            for _ in 0..k {
+                c.extend_from_slice(&fill);
+            }
+            sign_with("extended-after", format!("{k}{nm}"), &c);
+            let mut c = cwp[..cwp.len() - 32].to_vec();
+            for _ in 0..k {
+                c.extend_from_slice(&fill);
+            }
+            c.extend_from_slice(&cwp[cwp.len() - 32..]);
+            sign_with("extended-before-challenge", format!("{k}{nm}"), &c);
+        }
+    }
+    // ------------------------------------------------ 2. verify_blind_sign is bound to its inputs
+    let vb = |kind: &str, pos: String, pk_: &BBSplusPublicKey, h: Option<&[u8]>, ms: &[Vec<u8>], cs: &[Vec<u8>], bf: Option<&BlindFactor>| {
+        let case = format!("{}/vbs-{}/{}", base, kind, pos);
+        let o = ctx.call("verify_blind_sign", &case, None, || bsig.verify_blind_sign(pk_, h, Some(ms), Some(cs), bf));
+        not_ok(ctx, &format!("verify_blind_sign/{}", kind), &case, &o.outcome, json!({"messages":msgs_json(ms),"committed":msgs_json(cs),"header":h.map(hx)}));
+    };
+    for (which, list) in [("signer", &msgs), ("committed", &cm)] {
+        for i in 0..list.len() {
+            let edits: Vec<(&str, Vec<Vec<u8>>)> = vec![
+                ("altered", { let mut x = list.clone(); if x[i].is_empty() { x[i].push(1) } else { x[i][0] ^= 1 }; x }),
+                ("removed", { let mut x = list.clone(); x.remove(i); x }),
+                ("duplicated", { let mut x = list.clone(); x.insert(i, list[i].clone()); x }),
+                ("inserted", { let mut x = list.clone(); x.insert(i, b"new".to_vec()); x }),
+            ];
+            for (k, e) in edits {
+                if &e == list {
+                    continue;
+                }
+                if which == "signer" {
+                    vb(&format!("signer-msg-{k}"), format!("{i}"), &pk, ho, &e, &cm, Some(&blind));
+                } else {
+                    vb(&format!("committed-msg-{k}"), format!("{i}"), &pk, ho, &msgs, &e, Some(&blind));
+                }
+            }
+            for j in i + 1..list.len() {
+                if list[i] != list[j] {
+                    let mut x = list.clone();
+                    x.swap(i, j);
+                    if which == "signer" {
+                        vb("signer-msgs-swapped", format!("{i}-{j}"), &pk, ho, &x, &cm, Some(&blind));
+                    } else {
+                        vb("committed-msgs-swapped", format!("{i}-{j}"), &pk, ho, &msgs, &x, Some(&blind));
+                    }
+                }
+            }
+        }
+        let mut x = list.clone();
+        x.push(b"extra".to_vec());
+        if which == "signer" {
+            vb("signer-msg-appended", "-".into(), &pk, ho, &x, &cm, Some(&blind));
+        } else {
+            vb("committed-msg-appended", "-".into(), &pk, ho, &msgs, &x, Some(&blind));
+        }
+    }
+    // a message moved across the two lists
+    if l > 0 {
+        let mut c2 = vec![msgs[l - 1].clone()];
+        c2.extend(cm.iter().cloned());
+        vb("msg-moved-signer->committed", "-".into(), &pk, ho, &msgs[..l - 1].to_vec(), &c2, Some(&blind));
+    }
+    if m > 0 {
+        let mut s2 = msgs.clone();
+        s2.push(cm[0].clone());
+        vb("msg-moved-committed->signer", "-".into(), &pk, ho, &s2, &cm[1..].to_vec(), Some(&blind));
+    }
+    // blinding factor
+    vb("blind-other", "-".into(), &pk, ho, &msgs, &cm, Some(&BlindFactor::random()));
+    vb("blind-zero", "-".into(), &pk, ho, &msgs, &cm, Some(&BlindFactor::from_bytes(&[0u8; 32]).unwrap()));
+    vb("blind-absent", "-".into(), &pk, ho, &msgs, &cm, None);
+    {
+        let mut b = blind.to_bytes();
+        b[31] ^= 1;
+        if let Ok(bf) = BlindFactor::from_bytes(&b) {
+            vb("blind-bitflip", "-".into(), &pk, ho, &msgs, &cm, Some(&bf));
+        }
+    }
+    // header, pk
+    let hb = hdr.octets().to_vec();
+    let mut alts: Vec<Vec<u8>> = vec![{ let mut x = hb.clone(); x.push(0); x }];
+    if !hb.is_empty() {
+        alts.push(vec![]);
+        alts.push({ let mut x = hb.clone(); x[0] ^= 1; x });
+    }
+    for (n, a) in alts.iter().enumerate() {
+        vb("header-edited", format!("{n}"), &pk, Some(a), &msgs, &cm, Some(&blind));
+    }
+    let (_, pk2) = keypair::<X>(&mut r);
+    vb("pk-other", "-".into(), &pk2, ho, &msgs, &cm, Some(&blind));
+    vb("pk-negated", "-".into(), &BBSplusPublicKey(-pk.0), ho, &msgs, &cm, Some(&blind));
+    vb("pk-identity", "-".into(), &BBSplusPublicKey(G2Projective::IDENTITY), ho, &msgs, &cm, Some(&blind));
+    // blind signature bit flips
+    let sb = bsig.to_bytes();
+    for _ in 0..ctx.t(16, 64) {
+        let b = rand_range(&mut r, 640);
+        let mut s2 = sb;
+        s2[b / 8] ^= 1 << (b % 8);
+        let case = format!("{}/vbs-sig-bitflip/{}", base, b);
+        if let Some(bs2) = ctx.call("from_bytes", &case, None, || BSig::<X>::from_bytes(&s2)).value {
+            let o = ctx.call("verify_blind_sign", &case, None, || bs2.verify_blind_sign(&pk, ho, Some(&msgs), Some(&cm), Some(&blind)));
+            not_ok(ctx, "verify_blind_sign/sig-bitflip", &case, &o.outcome, json!({"sig":hx(&s2)}));
+        }
+    }
+    // other suite's verifier
+    {
+        let case = format!("{}/vbs-other-suite", base);
+        if let Some(bs2) = ctx.call("from_bytes", &case, None, || BSig::<Y>::from_bytes(&sb)).value {
+            let o = ctx.call("verify_blind_sign", &case, None, || bs2.verify_blind_sign(&pk, ho, Some(&msgs), Some(&cm), Some(&blind)));
+            not_ok(ctx, "verify_blind_sign/other-suite", &case, &o.outcome, json!({}));
+        }
+    }
+
+    // ------------------------------------------------ 3. blind proofs are bound to their statement
+    let subsets: Vec<(Vec<usize>, Vec<usize>)> = {
+        let mut v = vec![((0..l).collect::<Vec<_>>(), (0..m).collect::<Vec<_>>()), (vec![], vec![])];
+        for _ in 0..ctx.t(2, 6) {
+            v.push(((0..l).filter(|_| r.next_u32() % 2 == 0).collect(), (0..m).filter(|_| r.next_u32() % 2 == 0).collect()));
+        }
+        v
+    };
+    for (sn, (d, c)) in subsets.iter().enumerate() {
+        let ph = Hdr::gen(&mut r, &[8]);
+        let po = ph.as_opt();
+        let Some(proof) = ctx.call("blind_proof_gen", &base, None, || {
+            Pok::<X>::blind_proof_gen(&pk, &sb, ho, po, Some(&msgs), Some(&cm), Some(d), Some(c), Some(&blind))
+        }).value else {
+            ctx.inconclusive("C06: honest blind_proof_gen failed (C05's business)");
+            continue;
+        };
+        let dm: Vec<Vec<u8>> = d.iter().map(|&i| msgs[i].clone()).collect();
+        let dcm: Vec<Vec<u8>> = c.iter().map(|&j| cm[j].clone()).collect();
+        if !ctx.call("blind_proof_verify", &base, None, || proof.blind_proof_verify(&pk, ho, po, Some(l), Some(&dm), Some(&dcm), Some(d), Some(c))).outcome.is_ok() {
+            ctx.inconclusive("C06: honest blind proof did not verify (C05's business)");
+            continue;
+        }
+        let pbase = format!("{}/proof{}(D={:?},C={:?})", base, sn, d, c);
+        let pv = |kind: &str, pos: String, p: &Pok<X>, pk_: &BBSplusPublicKey, h: Option<&[u8]>, ph_: Option<&[u8]>, ll: Option<usize>, dm_: &[Vec<u8>], dcm_: &[Vec<u8>], d_: &[usize], c_: &[usize]| {
+            let case = format!("{}/bpv-{}/{}", pbase, kind, pos);
+            // honest verification derives l + m + 2 generators; give edits 4x that plus slack
+            let o = ctx.call("blind_proof_verify", &case, Some(64 + 4 * (l + m + 2) as u64), || p.blind_proof_verify(pk_, h, ph_, ll, Some(dm_), Some(dcm_), Some(d_), Some(c_)));
+            not_ok(ctx, &format!("blind_proof_verify/{}", kind), &case, &o.outcome,
+                   json!({"L_used":ll.map(|x| x.to_string()),"signer_idx":d_.iter().map(|x| x.to_string()).collect::<Vec<_>>(),"committed_idx":c_.iter().map(|x| x.to_string()).collect::<Vec<_>>(),
+                          "signer_msgs":msgs_json(dm_),"committed_msgs":msgs_json(dcm_),"honest":{"L":l,"M":m,"D":d,"C":c},"proof":hx_full(&p.to_bytes()),"pk":hx_full(&pk_.to_bytes()),"header":h.map(hx),"ph":ph_.map(hx)}));
+        };
+        // disclosed data edits
+        for k in 0..d.len() {
+            let mut x = dm.clone();
+            if x[k].is_empty() { x[k].push(1) } else { x[k][0] ^= 1 }
+            pv("signer-msg-altered", format!("{k}"), &proof, &pk, ho, po, Some(l), &x, &dcm, d, c);
+            let mut x = dm.clone();
+            let mut xi = d.clone();
+            x.remove(k);
+            xi.remove(k);
+            pv("signer-pair-dropped", format!("{k}"), &proof, &pk, ho, po, Some(l), &x, &dcm, &xi, c);
+            for to in (0..l + m + 3).chain([usize::MAX]) {
+                if to != d[k] {
+                    let mut xi = d.clone();
+                    xi[k] = to;
+                    pv("signer-index-moved", format!("{k}->{to}"), &proof, &pk, ho, po, Some(l), &dm, &dcm, &xi, c);
+                }
+            }
+        }
+        for k in 0..c.len() {
+            let mut x = dcm.clone();
+            if x[k].is_empty() { x[k].push(1) } else { x[k][0] ^= 1 }
+            pv("committed-msg-altered", format!("{k}"), &proof, &pk, ho, po, Some(l), &dm, &x, d, c);
+            let mut x = dcm.clone();
+            let mut xi = c.clone();
+            x.remove(k);
+            xi.remove(k);
+            pv("committed-pair-dropped", format!("{k}"), &proof, &pk, ho, po, Some(l), &dm, &x, d, &xi);
+            for to in (0..m + 2).chain([usize::MAX, usize::MAX - l, usize::MAX - l - 1]) {
+                if to != c[k] {
+                    let mut xi = c.clone();
+                    xi[k] = to;
+                    pv("committed-index-moved", format!("{k}->{to}"), &proof, &pk, ho, po, Some(l), &dm, &dcm, d, &xi);
+                }
+            }
+            // re-labelling: committed (j, msg) presented as the signer message at flat position L+1+j
+            let mut sd: Vec<(usize, Vec<u8>)> = d.iter().copied().zip(dm.iter().cloned()).collect();
+            sd.push((l + 1 + c[k], dcm[k].clone()));
+            sd.sort();
+            let mut xc = c.clone();
+            let mut xcm = dcm.clone();
+            xc.remove(k);
+            xcm.remove(k);
+            pv("relabel-committed-as-signer", format!("{k}"), &proof, &pk, ho, po, Some(l),
+               &sd.iter().map(|p| p.1.clone()).collect::<Vec<_>>(), &xcm, &sd.iter().map(|p| p.0).collect::<Vec<_>>(), &xc);
+        }
+        // reverse re-labelling: signer (i, msg) presented in the committed list with wrapped index
+        for k in 0..d.len() {
+            let mut xd = d.clone();
+            let mut xdm = dm.clone();
+            xd.remove(k);
+            xdm.remove(k);
+            let j = d[k].wrapping_sub(l + 1);
+            let mut cd: Vec<(usize, Vec<u8>)> = c.iter().copied().zip(dcm.iter().cloned()).collect();
+            cd.push((j, dm[k].clone()));
+            cd.sort();
+            pv("relabel-signer-as-committed", format!("{k}"), &proof, &pk, ho, po, Some(l),
+               &xdm, &cd.iter().map(|p| p.1.clone()).collect::<Vec<_>>(), &xd, &cd.iter().map(|p| p.0).collect::<Vec<_>>());
+        }
+        // the blind-factor slot L claimed as a disclosed signer message
+        {
+            let mut sd: Vec<(usize, Vec<u8>)> = d.iter().copied().zip(dm.iter().cloned()).collect();
+            sd.push((l, b"slot".to_vec()));
+            sd.sort();
+            pv("blind-slot-disclosed", "-".into(), &proof, &pk, ho, po, Some(l),
+               &sd.iter().map(|p| p.1.clone()).collect::<Vec<_>>(), &dcm, &sd.iter().map(|p| p.0).collect::<Vec<_>>(), c);
+        }
+        // L edits
+        let n = l + 1 + m;
+        for ll in [Some(0usize), None, Some(l.wrapping_sub(1)), Some(l + 1), Some(n - 1), Some(n), Some(n + 1), Some(1 << 32), Some(usize::MAX - 1), Some(usize::MAX)] {
+            if ll.unwrap_or(0) == l {
+                continue;
+            }
+            pv("L-edited", format!("{:?}", ll), &proof, &pk, ho, po, ll, &dm, &dcm, d, c);
+        }
+        // ph, header, pk
+        for (n_, a) in [vec![0xAAu8; 3], { let mut x = ph.octets().to_vec(); x.push(0); x }].iter().enumerate() {
+            if a.as_slice() != ph.octets() {
+                pv("ph-edited", format!("{n_}"), &proof, &pk, ho, Some(a), Some(l), &dm, &dcm, d, c);
+            }
+        }
+        if !ph.octets().is_empty() {
+            pv("ph-removed", "-".into(), &proof, &pk, ho, None, Some(l), &dm, &dcm, d, c);
+        }
+        for (n_, a) in alts.iter().enumerate() {
+            pv("header-edited", format!("{n_}"), &proof, &pk, Some(a), po, Some(l), &dm, &dcm, d, c);
+        }
+        pv("pk-other", "-".into(), &proof, &pk2, ho, po, Some(l), &dm, &dcm, d, c);
+        // proof bit flips (sample) and plain-interface verification of a blind proof
+        let pb = proof.to_bytes();
+        for _ in 0..ctx.t(24, 96) {
+            let b = rand_range(&mut r, pb.len() * 8);
+            let mut p2 = pb.clone();
+            p2[b / 8] ^= 1 << (b % 8);
+            let case = format!("{}/bpv-proof-bitflip/{}", pbase, b);
+            if let Some(pp) = ctx.call("from_bytes", &case, None, || Pok::<X>::from_bytes(&p2)).value {
+                pv("proof-bitflip", format!("{b}"), &pp, &pk, ho, po, Some(l), &dm, &dcm, d, c);
+            }
+        }
+        if sn == 0 {
+            ctx.sample(json!({"honest":{"suite":name::<X>(),"L":l,"M":m,"D":d,"C":c,"commitment_len":cwp.len(),"proof_len":pb.len()},
+                              "edits":"commitment bit flips/mixes/other suite/scalar-granular truncation+extension; verify_blind_sign message/blind/header/pk edits; blind_proof_verify data/index/relabel/L/ph/header/pk/bit-flip edits"}));
+        }
+    }
+}
+
+pub fn scenarios(ctx: &Ctx) -> Vec<Scenario> {
+    let mut v = Vec::new();
+    let mut idx = 0u64;
+    let ls: &[usize] = ctx.t(&[0, 1, 3], &[0, 1, 2, 3, 5]);
+    let ms: &[usize] = ctx.t(&[0, 1, 2, 5], &[0, 1, 2, 3, 5, 8]);
+    for rep in 0..ctx.t(1, 3) {
+        for &l in ls {
+            for &m in ms {
+                let i = idx;
+                idx += 1;
+                let all = if ctx.quick() { rep == 0 && ((l == 1 && m == 1) || (l == 0 && m == 0) || (l == 3 && m == 2)) } else { rep == 0 };
+                v.push(scenario(format!("sha/L{l}/M{m}"), move |c| one::<Sha, Shake>(c, i, l, m, all)));
+                v.push(scenario(format!("shake/L{l}/M{m}"), move |c| one::<Shake, Sha>(c, i, l, m, all)));
+            }
+        }
+    }
+    v
+}
